@@ -91,7 +91,9 @@ theorem echelon_right_support (t : STab) (piv : Nat → Nat) (he : Echelon t piv
     generators): whenever `height_func_list` returns, its entry `k` is `|B| − dim G_B` with `B = {k+1..n−1}`, `|B| = n−(k+1)`,
     and `G_B` the subgroup of the stabilizer group (modulo phases, as a GF(2)-subspace of `(ZMod 2 × ZMod 2)^n`, dimension =
     Mathlib `Module.finrank`) of the elements supported on `B` — the entropy of the cut `{0..k} | {k+1..n−1}` of a pure stabilizer
-    state (Fattal et al.; the identification of `|B| − dim G_B` with the von Neumann entropy is cited, not proved here). -/
+    state (Fattal et al.; the identification of `|B| − dim G_B` with the entropy of the reduced state — cited when this theorem
+    was written — is proved below on Hilbert space: `height_is_entanglement_entropy`, the reduced state has the flat spectrum
+    `σ² = 2^{−h} σ`, `tr σ = 1`, so its von Neumann and Rényi entropies are all `h`). -/
 theorem height_is_entropy_value (t : STab) (l : List Int) (h : t.heightFuncList = .ok l) :
     l = (List.range t.n).map fun (k : Nat) =>
       Int.ofNat t.n - (Int.ofNat k + 1) - Int.ofNat (Module.finrank (ZMod 2) ↥(t.gspace ⊓ rightOf t.n k)) :=
